@@ -58,7 +58,7 @@ def check(files, truth, run, rundir):
                 must.add(nm)
             if len(r["records"]) == 1 and ok:
                 single[nm] = r["records"][0]
-        cat["unaligned"] = spec["unmapped"] * len(ex["files"])
+        cat["unaligned"] = spec["unmapped"]
         bed = T.parse_bed(files, pre + "corrected_reads.bed")
         if bed is None:
             problems.append("%scorrected_reads.bed missing" % pre)
@@ -120,7 +120,7 @@ def check(files, truth, run, rundir):
                 for rec in truth["reads"][i]["records"]:
                     fl = rec["flag"]
                     cat["secondary" if fl & 256 else "supplementary" if fl & 2048 else "primary"] += 1
-            cat["unaligned"] = spec["unmapped"] * len(ex["files"])
+            cat["unaligned"] = spec["unmapped"]
             got = {k: int(v) for k, v in re.findall(r"INFO - (\w+): (\d+)", block)}
             for k in ("primary", "secondary", "supplementary", "unaligned"):
                 if got.get(k, 0) != cat.get(k, 0):
